@@ -327,6 +327,8 @@ def check_output(chk, f, rule="IT3"):
         return None
     bad = None
     npaths = 0
+    gaps = f.setdefault("_it3_gaps", [])
+    del gaps[:]
     for p in SP.paths(f["body"]):
         npaths += 1
         state = dict((c, "fresh") for c in curs)     # 'fresh' | 'written'
@@ -361,6 +363,8 @@ def check_output(chk, f, rule="IT3"):
             if k == "un" and e["op"] in ("++",):
                 n = ref_name(e["e"])
                 if n in state:
+                    if state[n] == "fresh" and not gaps:
+                        gaps.append((n, e, p))      # stepped twice without a write in between: an output slot is skipped
                     state[n] = "fresh"
                     return
             if k == "bin" and e["op"] == "+=":
@@ -830,3 +834,693 @@ def reverse_index_area(chk, db, prefixes, rule="IT4i"):
     if not any(not h for _i, _s, h in r):
         chk.analysis_broken("%s: the positive control fixture::last_not_space was not reported" % rule)
     return n
+
+
+# ---- BISECT: one step of a bisection keeps exactly the half that can still hold the answer ---------------------------
+class _BNM(Exception):
+    pass
+
+
+class _L:
+    """linear form over the symbols F (window begin), C (window length), S (probe distance): {sym: coef} + const"""
+
+    def __init__(self, d=None, c=0):
+        self.d = dict((k, v) for k, v in (d or {}).items() if v)
+        self.c = c
+
+    def __add__(self, o):
+        d = dict(self.d)
+        for k, v in o.d.items():
+            d[k] = d.get(k, 0) + v
+        return _L(d, self.c + o.c)
+
+    def __sub__(self, o):
+        d = dict(self.d)
+        for k, v in o.d.items():
+            d[k] = d.get(k, 0) - v
+        return _L(d, self.c - o.c)
+
+    def __eq__(self, o):
+        return self.d == o.d and self.c == o.c
+
+    def __repr__(self):
+        parts = []
+        for k in sorted(self.d):
+            v = self.d[k]
+            parts.append(("" if v == 1 else ("-" if v == -1 else "%d*" % v)) + k)
+        if self.c or not parts:
+            parts.append(str(self.c))
+        return " + ".join(parts).replace("+ -", "- ")
+
+
+_NAMES = {"F": "first", "C": "count", "S": "step"}
+
+
+def check_bisect(f):
+    """Bisection loops `while (count > 0) { step = count / 2; probe = first + step; if (test(*probe)) {...} else {...} }`.
+    The body is executed symbolically once per structural path with first = F, count = C, count / 2 = S (0 <= S < C).
+    A path must leave either the window behind the probe, (first', first' + count') = (F + S + 1, F + C), or the window
+    before it, (F, F + S): any other result drops a candidate or reaches outside [first, last).
+    Returns [(loop stmt, ok | None, message)]."""
+    from . import sets as SP
+    out = []
+    body = f.get("body")
+    if body is None:
+        return out
+    stmts = list(astx.walk_stmts(body))
+    # count variable <- distance(first, last)
+    dist = {}
+    for st in stmts:
+        cands = []
+        if st.get("k") == "decl":
+            cands = [(v["n"], v.get("init")) for v in st["vars"] if "other" not in v and v.get("init") is not None]
+        if st.get("k") == "expr":
+            e = astx.strip_casts(st["e"])
+            if e is not None and e.get("k") == "bin" and e["op"] == "=" and ref_name(e["l"]):
+                cands = [(ref_name(e["l"]), e["r"])]
+        for nme, init in cands:
+            i0 = astx.strip_casts(init)
+            if i0 is not None and i0.get("k") == "call" and astx.callee(i0)[0] == "distance" and len(i0["a"]) == 2 and ref_name(i0["a"][0]):
+                dist[nme] = ref_name(i0["a"][0])
+    for s0 in stmts:
+        if s0.get("k") != "while" or s0.get("c") is None:
+            continue
+        cnt = None
+        c0 = astx.strip_casts(s0["c"])
+        if c0 is not None and c0.get("k") == "bin" and c0["op"] in (">", "!=", "<"):
+            l, r = (c0["l"], c0["r"]) if c0["op"] != "<" else (c0["r"], c0["l"])
+            r0 = astx.strip_casts(r)
+            if ref_name(l) in dist and r0 is not None and (astx.int_value(r0) == 0 or (r0.get("k") in ("construct", "initlist") and not r0.get("a"))):
+                cnt = ref_name(l)
+        if cnt is None:
+            continue
+        first = dist[cnt]
+        halves = [x for x in astx.walk_stmt_exprs(s0.get("body"), into_lambdas=False) if x.get("k") == "bin" and x["op"] in ("/", ">>")
+                  and ref_name(x["l"]) == cnt]
+        if not halves:
+            continue
+        verdict, msg = True, ""
+        npaths = 0
+        for p in SP.paths(s0.get("body")):
+            if p and p[-1][0] in ("ret", "break"):
+                continue
+            env = {first: _L({"F": 1}), cnt: _L({"C": 1})}
+
+            def ev(e):
+                e = astx.strip_casts(e)
+                while e is not None and (e.get("k") == "paren" or (e.get("k") in ("construct", "initlist") and len(e.get("a", [])) == 1)):
+                    e = astx.strip_casts(e.get("e") if e.get("k") == "paren" else e["a"][0])
+                if e is None:
+                    raise _BNM("empty expression")
+                k = e.get("k")
+                iv = astx.int_value(e)
+                if iv is not None:
+                    return _L(c=iv)
+                if k == "ref":
+                    if e["n"] in env:
+                        return env[e["n"]]
+                    raise _BNM("`%s` is read before the loop body defines it" % e["n"])
+                if k == "bin" and e["op"] in ("+", "-"):
+                    a, b = ev(e["l"]), ev(e["r"])
+                    return a + b if e["op"] == "+" else a - b
+                if k == "bin" and ((e["op"] == "/" and astx.int_value(astx.strip_casts(e["r"])) == 2) or
+                                   (e["op"] == ">>" and astx.int_value(astx.strip_casts(e["r"])) == 1)):
+                    if ev(e["l"]) == _L({"C": 1}):
+                        return _L({"S": 1})
+                    raise _BNM("halves something other than the window length")
+                if k == "bin" and e["op"] in ("=", "+=", "-=") and ref_name(e["l"]):
+                    nme = ref_name(e["l"])
+                    v = ev(e["r"])
+                    if e["op"] != "=":
+                        cur = ev(e["l"])
+                        v = cur + v if e["op"] == "+=" else cur - v
+                    env[nme] = v
+                    return v
+                if k == "un" and e["op"] in ("++", "--") and ref_name(e["e"]):
+                    nme = ref_name(e["e"])
+                    old = ev(e["e"])
+                    new = old + _L(c=1) if e["op"] == "++" else old - _L(c=1)
+                    env[nme] = new
+                    return old if e.get("postfix") else new
+                if k == "call":
+                    nm = astx.callee(e)[0]
+                    if nm == "next" and len(e["a"]) in (1, 2):
+                        return ev(e["a"][0]) + (ev(e["a"][1]) if len(e["a"]) == 2 else _L(c=1))
+                    if nm == "prev" and len(e["a"]) in (1, 2):
+                        return ev(e["a"][0]) - (ev(e["a"][1]) if len(e["a"]) == 2 else _L(c=1))
+                    if nm == "advance" and len(e["a"]) == 2 and ref_name(e["a"][0]):
+                        env[ref_name(e["a"][0])] = ev(e["a"][0]) + ev(e["a"][1])
+                        return env[ref_name(e["a"][0])]
+                    if nm in ("move", "forward") and len(e["a"]) == 1:
+                        return ev(e["a"][0])
+                raise _BNM("`%s`" % astx.show(e, 40))
+            try:
+                for evn in p:
+                    if evn[0] == "decl":
+                        v = evn[1]
+                        if v.get("init") is not None:
+                            i0 = astx.strip_casts(v["init"])
+                            if i0 is not None and i0.get("k") in ("construct", "initlist") and not i0.get("a"):
+                                continue
+                            env[v["n"]] = ev(v["init"])
+                    elif evn[0] == "expr":
+                        e = astx.strip_casts(evn[1])
+                        if e is not None and e.get("k") == "bin" and e["op"] == ",":
+                            ev(e["l"])
+                            ev(e["r"])
+                        else:
+                            try:
+                                ev(evn[1])
+                            except _BNM:
+                                # an expression statement that assigns neither the window begin nor its length is irrelevant
+                                if any(ref_name(x.get("l")) in (first, cnt) for x in astx.walk_expr(evn[1]) if x.get("k") == "bin" and x["op"].endswith("=")):
+                                    raise
+                f1, c1 = env[first], env[cnt]
+            except _BNM as ex:
+                if verdict is True:
+                    verdict, msg = None, "a path through the loop body is not modelled: %s" % ex
+                continue
+            npaths += 1
+            end1 = f1 + c1
+            behind = f1 == _L({"F": 1, "S": 1}, 1) and end1 == _L({"F": 1, "C": 1})
+            before = f1 == _L({"F": 1}) and end1 == _L({"F": 1, "S": 1})
+            if not (behind or before):
+                def nm(x):
+                    t = repr(x)
+                    for a, b in _NAMES.items():
+                        t = t.replace(a, b)
+                    return t
+                verdict = False
+                msg = ("one step leaves the window [%s, %s) where only [first + step + 1, first + count) (answer behind the probe) or "
+                       "[first, first + step) (answer at or before it) keep every candidate inside the range" % (nm(f1), nm(end1)))
+                break
+        if npaths == 0 and verdict is True:
+            verdict, msg = None, "no path through the loop body reaches its end"
+        out.append((s0, verdict, msg))
+    return out
+
+
+def bisect_area(chk, db, prefixes, rule="BISECT", floor=0):
+    n = 0
+    for f in db.funcs:
+        if f.get("body") is None or not any(f["file"].startswith(p) for p in prefixes):
+            continue
+        for s0, verdict, msg in check_bisect(f):
+            n += 1
+            label = "%s :: bisection loop at line %s" % (astx.sig(f), s0.get("line"))
+            chk.instance(rule)
+            chk.obligation(rule, label, verdict)
+            if verdict is False:
+                chk.violation(rule, label, "bisection-step", "%s: %s" % (astx.loc(f, s0), msg), {"where": astx.loc(f)})
+            elif verdict is None:
+                chk.unknown_instance(rule, label, msg)
+    if n < floor:
+        chk.analysis_broken("%s: only %d bisection loops found in %s (floor %d)" % (rule, n, ", ".join(prefixes), floor))
+    # positive control (a library without any bisection loop is legitimate: the floor is 0 by default)
+    import os
+    from .. import db as D
+    fixture = os.path.join(D.VERIF, "fixtures", "iter_pos.hpp")
+    if "fx" not in _FIX_CACHE:
+        _FIX_CACHE["fx"] = D.load_source('#include "%s"\n' % fixture, root=os.path.dirname(fixture) + "/", tag="fixture-iter")
+    fxf = dict((g["n"], g) for g in _FIX_CACHE["fx"].funcs)
+    r = check_bisect(fxf["bad_partition_point"]) if "bad_partition_point" in fxf else []
+    if not any(v is False for _s, v, _m in r):
+        chk.analysis_broken("%s: the positive control fixture::bad_partition_point was not reported" % rule)
+    return n
+
+
+# ---- RESUME: a pattern search tries its candidate positions one by one ------------------------------------------------
+class _SymExec:
+    """straight-line symbolic execution of one structural path over linear forms; unknown values are fresh symbols"""
+
+    def __init__(self, env):
+        self.env = env
+        self.fresh = 0
+        self.origin = {}      # symbol -> text of the expression it stands for
+
+    def sym(self, why):
+        self.fresh += 1
+        n = "v%d" % self.fresh
+        self.origin[n] = why
+        return _L({n: 1})
+
+    def ev(self, e):
+        e = astx.strip_casts(e)
+        while e is not None and (e.get("k") == "paren" or (e.get("k") in ("construct", "initlist") and len(e.get("a", [])) == 1)):
+            e = astx.strip_casts(e.get("e") if e.get("k") == "paren" else e["a"][0])
+        if e is None:
+            return self.sym("<empty>")
+        k = e.get("k")
+        iv = astx.int_value(e)
+        if iv is not None:
+            return _L(c=iv)
+        if k == "ref":
+            if e["n"] not in self.env:
+                self.env[e["n"]] = _L({e["n"]: 1})
+            return self.env[e["n"]]
+        if k == "bin" and e["op"] in ("+", "-"):
+            a, b = self.ev(e["l"]), self.ev(e["r"])
+            return a + b if e["op"] == "+" else a - b
+        if k == "bin" and e["op"] in ("=", "+=", "-=") and ref_name(e["l"]):
+            nme = ref_name(e["l"])
+            v = self.ev(e["r"])
+            if e["op"] != "=":
+                cur = self.ev(e["l"])
+                v = cur + v if e["op"] == "+=" else cur - v
+            self.env[nme] = v
+            return v
+        if k == "bin" and e["op"] == ",":
+            self.ev(e["l"])
+            return self.ev(e["r"])
+        if k == "un" and e["op"] in ("++", "--") and ref_name(e["e"]):
+            nme = ref_name(e["e"])
+            old = self.ev(e["e"])
+            new = old + _L(c=1) if e["op"] == "++" else old - _L(c=1)
+            self.env[nme] = new
+            return old if e.get("postfix") else new
+        if k == "call":
+            nm = astx.callee(e)[0]
+            if nm == "next" and len(e["a"]) in (1, 2):
+                return self.ev(e["a"][0]) + (self.ev(e["a"][1]) if len(e["a"]) == 2 else _L(c=1))
+            if nm == "prev" and len(e["a"]) in (1, 2):
+                return self.ev(e["a"][0]) - (self.ev(e["a"][1]) if len(e["a"]) == 2 else _L(c=1))
+            if nm == "advance" and len(e["a"]) == 2 and ref_name(e["a"][0]):
+                self.env[ref_name(e["a"][0])] = self.ev(e["a"][0]) + self.ev(e["a"][1])
+                return self.env[ref_name(e["a"][0])]
+            if nm in ("move", "forward") and len(e["a"]) == 1:
+                return self.ev(e["a"][0])
+            if nm in ("max", "min") and len(e["a"]) == 2:
+                a, b = self.ev(e["a"][0]), self.ev(e["a"][1])
+                if a == b:
+                    return a
+                r = self.sym("%s(%s)" % (nm, ", ".join(astx.show(x, 20) for x in e["a"])))
+                self.varying = getattr(self, "varying", set())
+                if a.d or b.d:
+                    self.varying.add(list(r.d)[0])       # depends on a run-time quantity: not a constant step
+                return r
+            if nm in ("search", "find", "find_if", "mismatch", "find_first_of") and e["a"]:
+                start = self.ev(e["a"][0])
+                r = self.sym("the position %s(%s, ...) returns" % (nm, astx.show(e["a"][0], 20)))
+                self.search_results = getattr(self, "search_results", {})
+                self.search_results[list(r.d)[0]] = start
+                return r
+        return self.sym(astx.show(e, 40))
+
+
+def check_resume(f):
+    """In a function that looks for a needle *range* inside a haystack range, the loop that tries candidate start positions
+    moves the candidate c by exactly one per attempt: at the end of every path through the loop body that does not leave the
+    loop, c' = c + 1, or c' = r + 1 where r is the position a nested search started at c reported (the positions before r
+    were candidates of that search). A larger step (the needle's length, the number of characters matched so far) skips
+    occurrences that overlap the failed or the previous match. Returns [(loop, candidate, ok | None, message)]."""
+    from . import sets as SP
+    out = []
+    body = f.get("body")
+    if body is None:
+        return out
+    # needle range: a second iterator pair or a view / string parameter
+    pairs = range_pairs(f)
+    viewish = [p for p in f["params"] if any(t in p["ty"] for t in ("string_view", "basic_inplace_string", "StringView")) and p.get("n")]
+    if len(pairs) < 2 and not viewish:
+        return out
+    top = [st for st in (body.get("s") or []) if st.get("k") in ("for", "while", "do")]
+    for s0 in top:
+        inner_stmts = [t for t in astx.walk_stmts(s0.get("body"))]
+        nested_loop = any(t.get("k") in ("for", "while", "do") for t in inner_stmts) or \
+            any(x.get("k") == "lambda" for x in astx.walk_stmt_exprs(s0.get("body"), into_lambdas=False))
+        nested_search = any(x.get("k") == "call" and astx.callee(x)[0] in ("search", "equal", "mismatch", "compare")
+                            for x in astx.walk_stmt_exprs(s0.get("body"), into_lambdas=True))
+        if not (nested_loop or nested_search):
+            continue
+        # variables stepped by the loop itself (outside nested loops)
+        nested_ids = set()
+        for t in inner_stmts:
+            if t.get("k") in ("for", "while", "do"):
+                for u in astx.walk_stmts(t):
+                    nested_ids.add(id(u))
+        assigned = []
+
+        def targets(e):
+            r = []
+            for x in astx.walk_expr(e, into_lambdas=False):
+                if x.get("k") == "bin" and x["op"] in ("=", "+=", "-=") and ref_name(x["l"]):
+                    r.append(ref_name(x["l"]))
+                if x.get("k") == "un" and x["op"] in ("++", "--") and ref_name(x["e"]):
+                    r.append(ref_name(x["e"]))
+                if x.get("k") == "call" and astx.callee(x)[0] == "advance" and x["a"] and ref_name(x["a"][0]):
+                    r.append(ref_name(x["a"][0]))
+            return r
+        if s0.get("inc") is not None:
+            assigned += targets(s0["inc"])
+        for t in inner_stmts:
+            if id(t) in nested_ids or t.get("k") != "expr":
+                continue
+            assigned += targets(t["e"])
+        declared_inside = set(v["n"] for t in inner_stmts if t.get("k") == "decl" for v in t["vars"] if "other" not in v)
+        havoc = set()
+        for t in inner_stmts:
+            if id(t) in nested_ids:
+                if t.get("k") == "expr":
+                    havoc |= set(targets(t["e"]))
+            if t.get("k") == "for" and t.get("inc") is not None:
+                havoc |= set(targets(t["inc"]))
+        # the candidate: stepped by the outer loop, read inside it (as an access base or a search start), not local to the body
+        reads = set(ref_name(x) for x in astx.walk_stmt_exprs(s0.get("body"), into_lambdas=True) if ref_name(x))
+        cands = [c for c in dict.fromkeys(assigned) if c not in declared_inside and c in reads and c not in havoc]
+        # a result holder that is only written (find_end's `result`) is not a candidate: it must be read before it is written
+        first_events = []
+        for c in cands:
+            verdict, msg = True, ""
+            npaths = 0
+            for p in SP.paths(s0.get("body")):
+                if p and p[-1][0] in ("ret", "break"):
+                    continue
+                ex = _SymExec({c: _L({c: 1})})
+                read_before_write = None
+                for evn in p:
+                    exprs = []
+                    if evn[0] == "decl" and evn[1].get("init") is not None:
+                        exprs = [("decl", evn[1])]
+                    elif evn[0] in ("expr", "cond"):
+                        exprs = [("expr", evn[1])]
+                    for kind, e in exprs:
+                        if read_before_write is None:
+                            src = e["init"] if kind == "decl" else e
+                            for x in astx.walk_expr(src, into_lambdas=True):
+                                if x.get("k") == "bin" and x["op"] == "=" and ref_name(x["l"]) == c:
+                                    if not any(ref_name(y) == c for y in astx.walk_expr(x["r"], into_lambdas=True)):
+                                        read_before_write = False
+                                    break
+                                if ref_name(x) == c:
+                                    read_before_write = True
+                                    break
+                        if kind == "decl":
+                            if e["n"] in havoc:
+                                ex.env[e["n"]] = ex.sym("`%s` after the inner loop" % e["n"])
+                            else:
+                                ex.env[e["n"]] = ex.ev(e["init"])
+                        elif evn[0] == "expr":
+                            ex.ev(e)
+                    if evn[0] in ("cond", "backedge-cond"):
+                        pass
+                    # values stepped by nested loops are unknown behind them
+                    if evn[0] == "backedge-cond":
+                        for h in havoc:
+                            if h in ex.env:
+                                ex.env[h] = ex.sym("`%s` after the inner loop" % h)
+                if read_before_write is False:
+                    verdict = "skip"
+                    break
+                if s0.get("inc") is not None:
+                    for h in havoc:
+                        ex.env[h] = ex.sym("`%s` after the inner loop" % h)
+                    ex.ev(s0["inc"])
+                npaths += 1
+                c1 = ex.env[c]
+                step = c1 - _L({c: 1})
+                ok = step == _L(c=1)
+                if not ok:
+                    # r + 1 with r reported by a search that started at c
+                    for symn, start in getattr(ex, "search_results", {}).items():
+                        if c1 == _L({symn: 1}, 1) and start == _L({c: 1}):
+                            ok = True
+                if not ok:
+                    if step == _L(c=0) or step == _L():
+                        continue        # this path does not step the candidate (an inner retry): not judged
+                    txt = repr(step)
+                    for symn, why in ex.origin.items():
+                        txt = txt.replace(symn, "<" + why + ">")
+                    known = set(getattr(ex, "search_results", {})) | getattr(ex, "varying", set()) | \
+                        set(k for k, w in ex.origin.items() if w.endswith("after the inner loop"))
+                    if any(k in ex.origin and k not in known for k in step.d):
+                        if verdict is True:
+                            verdict, msg = None, "the step `%s` of candidate `%s` is not modelled" % (txt, c)
+                        continue
+                    verdict = False
+                    msg = "one attempt moves the candidate `%s` by `%s`; every position is a candidate, so the step is 1" % (c, txt)
+                    break
+            if verdict == "skip":
+                continue
+            if npaths == 0:
+                continue
+            out.append((s0, c, verdict, msg))
+    return out
+
+
+def resume_area(chk, db, prefixes, rule="RESUME"):
+    n = 0
+    for f in db.funcs:
+        if f.get("body") is None or not any(f["file"].startswith(p) for p in prefixes):
+            continue
+        try:
+            res = check_resume(f)
+        except Exception as ex:       # pragma: no cover
+            chk.unknown_instance(rule, astx.sig(f), "not analysed: %s" % ex)
+            continue
+        for s0, c, verdict, msg in res:
+            n += 1
+            label = "%s :: candidate `%s` of the loop at line %s" % (astx.sig(f), c, s0.get("line"))
+            chk.instance(rule)
+            chk.obligation(rule, label, verdict)
+            if verdict is False:
+                chk.violation(rule, label, "candidate-skipped", "%s: %s" % (astx.loc(f, s0), msg), {"where": astx.loc(f)})
+            elif verdict is None:
+                chk.unknown_instance(rule, label, msg)
+    return n
+
+
+# ---- SHIFTRET: the value shift_left / shift_right return in the cases that do nothing ----------------------------------
+SHIFT_SPEC = {
+    # [alg.shift]: shift_left returns first + (last - first - n) if n < last - first, otherwise first;
+    #              shift_right returns first + n if n < last - first, otherwise last            (precondition n >= 0)
+    "shift_left": lambda F, D, n: F + (D - n) if n < D else F,
+    "shift_right": lambda F, D, n: F + n if n < D else D + F,
+}
+
+
+def check_shift_returns(f):
+    """Early exits of shift_left / shift_right (returns reached before any loop or call that moves elements) are evaluated in
+    every model (n, D = last - first) with 0 <= n, D <= 4: where the path's tests hold, the returned position must be the
+    one [alg.shift] specifies. Returns [(return node, ok | None, message)]."""
+    from . import sets as SP
+    spec = SHIFT_SPEC.get(f["n"])
+    if spec is None or f.get("body") is None or len(f["params"]) != 3:
+        return []
+    first, last, nn = [p["n"] for p in f["params"]]
+    out = []
+
+    class NM(Exception):
+        pass
+
+    def val(e, m):
+        e = astx.strip_casts(e)
+        while e is not None and e.get("k") == "paren":
+            e = astx.strip_casts(e.get("e"))
+        if e is None:
+            raise NM()
+        iv = astx.int_value(e)
+        if iv is not None:
+            return iv
+        k = e.get("k")
+        if k == "ref":
+            if e["n"] == first:
+                return m["F"]
+            if e["n"] == last:
+                return m["F"] + m["D"]
+            if e["n"] == nn:
+                return m["n"]
+            raise NM()
+        if k == "bin" and e["op"] in ("+", "-"):
+            a, b = val(e["l"], m), val(e["r"], m)
+            return a + b if e["op"] == "+" else a - b
+        if k == "call":
+            nm = astx.callee(e)[0]
+            if nm == "distance" and len(e["a"]) == 2:
+                return val(e["a"][1], m) - val(e["a"][0], m)
+            if nm == "next" and len(e["a"]) in (1, 2):
+                return val(e["a"][0], m) + (val(e["a"][1], m) if len(e["a"]) == 2 else 1)
+            if nm == "prev" and len(e["a"]) in (1, 2):
+                return val(e["a"][0], m) - (val(e["a"][1], m) if len(e["a"]) == 2 else 1)
+        raise NM()
+
+    def truth(c, m):
+        c = astx.strip_casts(c)
+        while c is not None and c.get("k") == "paren":
+            c = astx.strip_casts(c.get("e"))
+        if c is None:
+            raise NM()
+        if c.get("k") == "un" and c["op"] == "!":
+            return not truth(c["e"], m)
+        if c.get("k") == "bin" and c["op"] in ("&&", "||"):
+            a = truth(c["l"], m)
+            if c["op"] == "&&":
+                return a and truth(c["r"], m)
+            return a or truth(c["r"], m)
+        if c.get("k") == "bin" and c["op"] in ("<", "<=", ">", ">=", "==", "!="):
+            a, b = val(c["l"], m), val(c["r"], m)
+            return {"<": a < b, "<=": a <= b, ">": a > b, ">=": a >= b, "==": a == b, "!=": a != b}[c["op"]]
+        raise NM()
+
+    seen = set()
+    loop_conds = set(id(st.get("c")) for st in astx.walk_stmts(f["body"]) if st.get("k") in ("for", "while", "do") and st.get("c") is not None)
+    names = {first, last, nn}
+    for p in SP.paths(f["body"]):
+        conds = []
+        for ev in p:
+            if ev[0] == "cond":
+                if id(ev[1]) in loop_conds:
+                    break       # inside a loop: not an early exit
+                if not any(ref_name(x) in names for x in astx.walk_expr(ev[1])):
+                    continue    # a configuration test (`if constexpr (RandomAccessIterator<It>)`): does not constrain (n, D)
+                conds.append((ev[1], ev[2]))
+                continue
+            if ev[0] == "ret":
+                if id(ev[1]) in seen or ev[1] is None:
+                    break
+                seen.add(id(ev[1]))
+                bad = None
+                unknown = False
+                judged = 0
+                for D in range(0, 5):
+                    for n in range(0, 5):
+                        m = {"F": 10, "D": D, "n": n}
+                        try:
+                            if not all(truth(c, m) == t for c, t in conds):
+                                continue
+                            got = val(ev[1], m)
+                        except NM:
+                            unknown = True
+                            break
+                        judged += 1
+                        want = spec(10, D, n)
+                        if got != want and bad is None:
+                            bad = (D, n, got - 10, want - 10)
+                    if unknown:
+                        break
+                if unknown:
+                    out.append((ev[1], None, "the early exit's tests or value are not linear in (first, last, n)"))
+                elif judged:
+                    out.append((ev[1], bad is None, "" if bad is None else
+                                "with last - first = %d and n = %d the function returns first + %d, [alg.shift] specifies first + %d" % bad))
+                break
+            if ev[0] in ("decl",) and ev[1].get("init") is not None:
+                i0 = astx.strip_casts(ev[1]["init"])
+                if i0 is not None and i0.get("k") == "call":
+                    break
+                continue
+            if ev[0] in ("expr", "opaque", "backedge-cond", "loop-exit"):
+                break           # elements are being moved: not an early exit any more
+    return out
+
+
+# ---- RUN: a position remembered at the start of a run does not survive the run's reset -----------------------------------
+def check_run_state(f):
+    """Loops that count a run of consecutive matches (`counter++` on a match, `counter = 0` on a mismatch) and remember where
+    the run began (`if (holder == <its initial value>) holder = cursor;`) are interpreted over the ghost state of the holder:
+    none (holds its initial value) / current (captured in the run being counted) / stale (captured in a run that has been
+    reset since). Transfer functions: a reset of the counter turns current into stale; a guarded capture acts only in state
+    none; an unguarded assignment gives current (or none when it stores the initial value). The loop is iterated to a fixed
+    point over all structural paths; a `return holder` reachable in state stale reports the beginning of an earlier,
+    broken run. Returns [(loop, counter, holder, ok, message)]."""
+    from . import sets as SP
+    out = []
+    body = f.get("body")
+    if body is None:
+        return out
+    inits = {}
+    for st in (body.get("s") or []):
+        if st.get("k") == "decl":
+            for v in st["vars"]:
+                if "other" not in v:
+                    inits[v["n"]] = v.get("init")
+
+    def same(a, b):
+        a, b = astx.strip_casts(a), astx.strip_casts(b)
+
+        def z(x):
+            if x is None or astx.int_value(x) == 0 or x.get("k") == "nullptr":
+                return True
+            if x.get("k") in ("construct", "initlist"):
+                a = x.get("a") or []
+                return not a or (len(a) == 1 and a[0] is not None and z(astx.strip_casts(a[0])))
+            return False
+        if z(a) and z(b):
+            return True
+        if a is None or b is None:
+            return False
+        return astx.show(a, 80) == astx.show(b, 80)
+
+    for s0 in [st for st in (body.get("s") or []) if st.get("k") in ("for", "while")]:
+        exprs = list(astx.walk_stmt_exprs(s0.get("body"), into_lambdas=False))
+        counters = set()
+        for x in exprs:
+            if x.get("k") == "un" and x["op"] == "++" and ref_name(x["e"]) in inits:
+                c = ref_name(x["e"])
+                if any(y.get("k") == "bin" and y["op"] == "=" and ref_name(y["l"]) == c and same(y["r"], inits[c]) for y in exprs):
+                    counters.add(c)
+        if not counters:
+            continue
+        holders = set()
+        for st in astx.walk_stmts(s0.get("body")):
+            if st.get("k") == "if" and st.get("c") is not None:
+                for op, l, r in atoms_of_cond(st["c"], True):
+                    if op == "==" and ref_name(l) in inits and same(r, inits[ref_name(l)]):
+                        h = ref_name(l)
+                        if any(y.get("k") == "bin" and y["op"] == "=" and ref_name(y["l"]) == h
+                               for y in astx.walk_stmt_exprs(st.get("then"), into_lambdas=False)):
+                            holders.add(h)
+        for c in sorted(counters):
+            for h in sorted(holders):
+                if h == c:
+                    continue
+                paths = SP.paths(s0.get("body"))
+                states = {"none"}
+                bad = None
+                changed = True
+                rounds = 0
+                while changed and rounds < 6 and bad is None:
+                    changed = False
+                    rounds += 1
+                    for st0 in list(states):
+                        for p in paths:
+                            st = st0
+                            feasible = True
+                            for ev in p:
+                                if ev[0] == "cond":
+                                    for op, l, r in atoms_of_cond(ev[1], ev[2]):
+                                        if ref_name(l) == h and same(r, inits[h]):
+                                            if (op == "==") != (st == "none"):
+                                                feasible = False
+                                    if not feasible:
+                                        break
+                                    continue
+                                if ev[0] == "ret":
+                                    if ref_name(ev[1]) == h and st == "stale":
+                                        bad = ev[1]
+                                    break
+                                src = ev[1]["init"] if ev[0] == "decl" else (ev[1] if ev[0] == "expr" else None)
+                                if src is None:
+                                    continue
+                                for x in astx.walk_expr(src, into_lambdas=False):
+                                    if x.get("k") == "bin" and x["op"] == "=" and ref_name(x["l"]) == c and same(x["r"], inits[c]):
+                                        if st == "cur":
+                                            st = "stale"
+                                    if x.get("k") == "bin" and x["op"] == "=" and ref_name(x["l"]) == h:
+                                        st = "none" if same(x["r"], inits[h]) else "cur"
+                            if not feasible or bad is not None:
+                                if bad is not None:
+                                    break
+                                continue
+                            if p and p[-1][0] == "ret":
+                                continue
+                            if st not in states:
+                                states.add(st)
+                                changed = True
+                        if bad is not None:
+                            break
+                msg = ""
+                if bad is not None:
+                    msg = ("`%s` is captured only while it holds its initial value and is not re-initialised when `%s` is reset: after a "
+                           "broken run the function returns the beginning of that earlier run" % (h, c))
+                out.append((s0, c, h, bad is None, msg))
+    return out
